@@ -541,6 +541,27 @@ encode_one_block_simd(working_state *state, JCOEFPTR block, int last_dc_val,
 {
   JOCTET _buffer[BUFSIZE], *buffer;
   int localbuf = 0;
+  int k, temp, temp2;
+  /* Largest magnitude that needs no more than data_precision + 2 bits */
+  int max_coef = (1 << (state->cinfo->data_precision + 2)) - 1;
+
+  /* The SIMD encoders do not check for out-of-range coefficient values (see
+   * encode_one_block()), so do it here.  The bitwise OR of the magnitudes
+   * needs as many bits as the largest of them.
+   */
+  temp = block[0] - last_dc_val;
+  if (temp < 0) temp = -temp;
+  /* Since we're encoding a difference, the range limit is twice as much. */
+  if (temp > 2 * max_coef + 1)
+    ERREXIT(state->cinfo, JERR_BAD_DCT_COEF);
+  temp2 = 0;
+  for (k = 1; k < DCTSIZE2; k++) {
+    temp = block[k];
+    if (temp < 0) temp = -temp;
+    temp2 |= temp;
+  }
+  if (temp2 > max_coef)
+    ERREXIT(state->cinfo, JERR_BAD_DCT_COEF);
 
 #ifdef ZERO_BUFFERS
   memset(_buffer, 0, sizeof(_buffer));
